@@ -35,7 +35,8 @@ def pairing (recs : List LtRec) : List (LtRec × Option LtRec) :=
     | none => if isStart r then (some r, acc.2) else acc) (none, [])
   r.2 ++ (match r.1 with | some st => [(st, none)] | none => [])
 
-/-- F-C14a: the names differ only in the running number of a feature without path -/
+/-- the pattern of the (fixed) finding F-C14a: the names differ only in the running number of a feature without path;
+    kept for the replay files of old runs, no longer tolerated by `monC14` -/
 def onlyNumberDiffers (nopath : List Nat) (p : LtRec × Option LtRec) : Bool :=
   match ltName? p.1, p.2.bind ltName? with
   | some a, some b => nopath.contains a.feat && { a with featNo := none } == { b with featNo := none } && (p.2.map isResult).getD false
@@ -110,7 +111,8 @@ def monC14 (nopath : List Nat) (evs : List Ev) (lt : List LtRec) (ju : Option (L
   let pre := evs.takeWhile (fun e => !e.isFinished)
   let hasPF := evs.any (fun e => match e with | .parsingFinished .. => true | _ => false)
   let bad := pairing lt
-  let unknownBad := bad.filter (fun p => !onlyNumberDiffers nopath p)
+  -- (F-C14a is fixed in /repo: an unpaired `started` record is a NEW violation whatever the feature)
+  let unknownBad := bad
   let oks := (lt.filter (fun r => match r with | .ok _ => true | _ => false)).length
   let igs := (lt.filter (fun r => match r with | .ignored _ => true | _ => false)).length
   let fls := (lt.filter (fun r => match r with | .failed _ => true | .parseFailed _ => true | _ => false)).length
@@ -126,7 +128,7 @@ def monC14 (nopath : List Nat) (evs : List Ev) (lt : List LtRec) (ju : Option (L
   else if !dupFeat.all (fun f => nopath.contains f) then "!monitor NEW json: duplicated feature object"
   else if junitBad ju evs pre then "!monitor NEW junit: test cases differ from the finished attempts"
   else
-    let known := (if hasPF && !bad.isEmpty then ["F-C14a"] else []) ++ (if !dupFeat.isEmpty then ["F-C14b"] else [])
+    let known := (if !dupFeat.isEmpty then ["F-C14b"] else [])
     if known.isEmpty then "ok" else "!monitor " ++ " ".intercalate known
 
 end Cuke.RepMon
